@@ -81,8 +81,12 @@ def lookupByValue (env : Env) (c : Nat) (d : Val) : Option Val :=
     | none => none
   | none => none
 
-/-- `CastUnmarshaller` for an enum class. -/
+/-- `CastUnmarshaller` for an enum class (`unmarshals/routines.py:583-606`).  A member of a
+    text-like target (`isinstance(val, E) and istexttype(E)`: a `str`-mixin enum) is returned
+    before any decoding (9645d73); members of the other enums pass through `load` untouched and
+    are caught by the `isinstance(decoded, E)` short-circuit. -/
 def umEnum (env : Env) (L : Leaves) (c : Nat) (v : Val) : R Val :=
+  if isMemberOf c v && isStrMixin env c then .ok v else
   match load env L v with
   | .error e => .error e
   | .ok d =>
